@@ -940,7 +940,14 @@ impl<'a> Gen<'a> {
                 if self.clean && f != "var" {
                     f = "calc";
                 }
-                if f == "var" { format!("var(--{})", self.ident()) } else { format!("{}({})", f, self.calc_sum(depth + 1)) }
+                if f == "var" {
+                    // a sum in the fallback of var() / env() nested in a calc sum is still part of the sum
+                    match self.rng.below(3) {
+                        0 => format!("var(--{})", self.ident()),
+                        1 => { self.feat("sum-in-var-in-calc"); format!("var(--{},{}{})", self.ident(), self.ows(), self.calc_sum(depth + 1)) }
+                        _ => { self.feat("sum-in-var-in-calc"); format!("env({},{}{})", self.ident(), self.ows(), self.calc_sum(depth + 1)) }
+                    }
+                } else { format!("{}({})", f, self.calc_sum(depth + 1)) }
             }
             _ => self.number(),
         }
@@ -1329,6 +1336,7 @@ const SEEDS: &[&str] = &[
     "@import 'a b*/' layer(x) supports(display: grid) screen and (min-width: 1px);",
     ":host { color: red }\n@media x { :host { a: b } .q{} :host(.a) {} :host .b {} }",
     ".a { w: min(100% - 20rpx, 50px); h: calc((1px + 2px) * 3) }",
+    ".a { w: calc(1px + var(--x, 2px + 1rpx)); h: min(env(a, 1px - 2px), translate(3px + var(--y, 1px + 1px))) }",
     "/*x*/ .a /*y*/ .b{color:red}\n@media (min-width: 2rpx) { .c/*k*/.d { x: 1rpx } }",
     ".\u{1f600}a \u{540d}.b{ --\u{e9}: '\u{1f600}' 1rpx }\n.c{}",
     ".a{b:c",
